@@ -19,9 +19,15 @@ CLAIMED = {
  'C05': dict(text="ADWIN model (rows of buckets, compress cascade, delete, eps_cut scan, shrink loop on fuel) tied to the code after every update (width, total, variance, row lengths, drift); monitor recomputes the window from the raw stream and checks suffix-window, bucket sizes, shrink-only-at-check, drift-iff-dropped, justified shrink, quiet after check. Structural theorems (warm-up, drift only at checks) proved; representation invariant in progress.",
              note="Trusted: as C01; R theorems do not bound binary64 downdating error (monitor uses tolerance).",
              tech="Coq proof (structural + representation lemmas) + per-update correspondence and window recomputation"),
+ 'C06': dict(text="KSWIN: for every number system and history the window is exactly the last min_num_instances inputs since reset, and once full the verdict is the exact-KS decision p <= alpha on the supplied draw; the exact p-value is antitone in the statistic and, for EVERY sub-multiset sample of the older part, the statistic lies between H_lo and H_hi, so the verdict is forced when p(H_lo) <= alpha (alarm) or p(H_hi) > alpha (silent); a seeded run is a function of (config, seed, stream). STEPD: counters proved equal to the numbers of correct predictions in the last min_num_instances and in all earlier inputs (ring-buffer refinement), verdict = one-sided test of the continuity-corrected two-proportion statistic against the normal quantile, equivalently sf(T) < alpha for any strictly decreasing sf. Tied to the code per run (recorded draws, all 0/1 streams of length 10/12 for STEPD).",
+             note="Trusted: Coq kernel/vm_compute; Reals axioms for sub_H_lower and the sf inversion; NumPy's draw and SciPy's norm.sf are oracles (values taken from the real libraries at run time).",
+             tech="Coq proof (window invariant, antitone exact p-value, bounds over all sub-samples, ring-buffer refinement) + correspondence check with recorded draws"),
  'C07': dict(text="Statistic = property's recurrence over the batch mean, verdict iff t>=min and g>lambda, shift invariance and lambda antitonicity proved over R for all streams and configurations; warm-up/no-latch for every number system. Binary64 model compared with the code at every step; invariances also checked on the implementation.",
              note="Trusted: Coq kernel; Reals axioms; correspondence by differential testing.",
              tech="Coq proof (induction over the stream, refinement to the batch recurrence) + correspondence check"),
+ 'C11': dict(text="The model's statistic is the supremum over all reals of |F_ref - F_test| (attained at a sample point); the exact p-value DP equals the count of interleaving words whose maximal deviation reaches the observed one, out of C(n+m,n) equally likely words, for all n, m (no bound); 0 <= p <= 1. IncrementalKSTest: for every reference, window size >= 1 and history of fit/update/reset, update never fails once fitted (MissingFitError exactly when unfitted), returns nothing for the first window_size-1 values and then exactly the batch test on the last window_size values (ring buffer handed over in storage order + permutation invariance). Tied to the code per run: all (n,m) with n+m <= 14 and every attainable d exhaustively, random larger samples with ties, sizes straddling 10 000.",
+             note="Trusted: Coq kernel/vm_compute; Reals axioms where samples are reals; above 10 000 values the p-value is SciPy's kstwo.sf (oracle): the model carries the statistic and the check compares batch with incremental there.",
+             tech="Coq proof (DP = enumeration of interleavings by induction on n+m; ring-buffer refinement; permutation invariance) + exhaustive small-size and random correspondence"),
  'C17': dict(text="For EVERY detector model, number system, configuration and history of updates/resets: the history callback holds exactly one entry per update since the last reset for every tracked variable, entry i being the input, counter, drift flag and the variable's value in the detector state right after update i; the registration chain yields each name once; attaching the callback leaves the detector's state equal to the detector run alone; reset empties the history. ResetStatisticalTest: reset iff p <= alpha and the returned result is the pre-reset one, over all fit/compare/reset sequences. Tied to the code per run on the 13 detectors (history compared with the model's, field by field) and 6 statistical-test detectors.",
              note="Trusted: Coq kernel/vm_compute (theorems are axiom-free); tracked non-scalar objects are recorded by reference and are outside the property's 'scalar statistics'; the statistical test's p-value is an oracle for the reset model; BWSTest excluded from the reset oracle (Monte-Carlo p-value).",
              tech="Coq proof (invariant over operation lists for the generic detector+callback system) + model-vs-code correspondence and per-step monitor"),
